@@ -35,3 +35,26 @@ contract(f"{M}:RtcpByePacket.parse", params={"data": "bytes", "count": "int"}, r
          ensures=["len(result.sources) == count",
                   "forall(lambda j: result.sources[j] == u32(data, 4 * j), 0, count)"],
          fresh_result=True, tags=["C05", "C07"], witness=[{"data": bytes(range(8)), "count": 2}])
+
+# ---------------------------------------------------------------------------- SDES
+klass(f"{M}:RtcpSourceInfo", fields={"ssrc": "int", "items": "list[tuple[int,bytes]]"})
+klass(f"{M}:RtcpSdesPacket", fields={"chunks": "list[RtcpSourceInfo]"})
+contract(f"{M}:RtcpSdesPacket.parse", params={"data": "bytes", "count": "int"}, returns="RtcpSdesPacket",
+         raises={"ValueError": None},
+         ensures=["len(result.chunks) == ite(count > 0, count, 0)",
+                  "all_in(result.chunks, lambda c: 0 <= c.ssrc < (1 << 32) and "
+                  "all_in(c.items, lambda it: 1 <= it[0] < 256 and len(it[1]) < 256))"],
+         locals={"chunks": "list[RtcpSourceInfo]", "items": "list[tuple[int,bytes]]"},
+         loops={0: dict(kind="for", index="r",
+                        invariant=["0 <= pos <= len(data)", "len(chunks) == r", "fresh(chunks)",
+                                   "all_in(chunks, lambda c: 0 <= c.ssrc < (1 << 32) and "
+                                   "all_in(c.items, lambda it: 1 <= it[0] < 256 and len(it[1]) < 256))"],
+                        modifies=["content(chunks)"]),
+                1: dict(kind="while",
+                        invariant=["4 <= pos <= len(data)", "fresh(items)", "len(chunks) == r", "fresh(chunks)",
+                                   "all_in(items, lambda it: 1 <= it[0] < 256 and len(it[1]) < 256)",
+                                   "all_in(chunks, lambda c: 0 <= c.ssrc < (1 << 32) and "
+                                   "all_in(c.items, lambda it: 1 <= it[0] < 256 and len(it[1]) < 256))"],
+                        decreases="len(data) - pos", modifies=["content(items)"])},
+         fresh_result=True, tags=["C05", "C07"],
+         witness=[{"data": bytes.fromhex("00000001" "0103414243" "000000"), "count": 1}])
